@@ -35,17 +35,28 @@ def gen_opts(rng, tier):
     )
 
 
-def _strong_tables(rng):
+def _strong_tables(rng, standby=False):
     """Every tabulated element with a table that depends STRONGLY on both coordinates (affine in io and vi, so that
     every triangulation agrees) and a large series drop across it: looking the table up at any other voltage or
-    current than (input voltage, output current) shows in the row."""
+    current than (input voltage, output current) shows in the row.
+
+    standby=True: the milliampere / 3 V class with steep tables on a fine io axis, and load phases whose currents
+    differ by fractions of a microampere - neighbouring operating points must each be looked up where they are."""
     sgn = rng.choice([1, 1, -1])
-    # half of the supplies lie ABOVE the tables' vi range (the lookup is clamped to the nearest edge, which for rows in
-    # arbitrary order is not the first / last listed row)
-    V = G.sig(rng.uniform(14.0, 30.0)) if rng.random() < 0.5 else G.sig(rng.uniform(45.0, 60.0))
-    I = G.sig(rng.uniform(0.4, 1.5))
-    vis = [2.0, 12.0, 40.0]
-    ios = [0.0, 0.5, 3.0]
+    if standby:
+        V = G.sig(rng.uniform(2.5, 3.8))
+        I = G.sig(rng.uniform(1.0e-3, 2.5e-3))
+        vis = [2.0, 3.0, 4.0]
+        ios = [0.0, 0.001, 0.003]
+        kx, kv, kr = 250.0, 0.05, 1.0  # steeper in io, flatter in vi; series resistances as they are
+    else:
+        # half of the supplies lie ABOVE the tables' vi range (the lookup is clamped to the nearest edge, which for rows
+        # in arbitrary order is not the first / last listed row)
+        V = G.sig(rng.uniform(14.0, 30.0)) if rng.random() < 0.5 else G.sig(rng.uniform(45.0, 60.0))
+        I = G.sig(rng.uniform(0.4, 1.5))
+        vis = [2.0, 12.0, 40.0]
+        ios = [0.0, 0.5, 3.0]
+        kx, kv, kr = 1.0, 1.0, 1.0
 
     def tab(z, a0, bx, cy):
         # rows listed ascending, descending or in ARBITRARY order (each row carries its own vi; the first / last listed
@@ -53,7 +64,7 @@ def _strong_tables(rng):
         perm = rng.choice([[0, 1, 2], [2, 1, 0], [1, 2, 0], [1, 0, 2], [2, 0, 1], [0, 2, 1]])
         vv = [vis[k] for k in perm]
         return {"vi": [sgn * v for v in vv] if rng.random() < 0.3 else list(vv), "io": list(ios),
-                z: [[G.sig(a0 + bx * x + cy * v, 6) for x in ios] for v in vv]}
+                z: [[G.sig(a0 + bx * kx * x + cy * kv * v, 6) for x in ios] for v in vv]}
 
     def c(name, kind, args, parents):
         return {"name": name, "kind": kind, "args": args, "parents": parents, "group": "", "rail": "", "limits": None, "phase": None}
@@ -61,27 +72,43 @@ def _strong_tables(rng):
     comps = [c("S", "Source", {"vo": sgn * V, "rs": 0.0}, [])]
     par = "S"
     order = rng.sample(["Rectifier", "PSwitch", "VLoss", "LinReg"], rng.randint(1, 3))
+    if standby:
+        # the voltage-valued table sits directly on the stiff source: its input voltage is the same in every phase, so
+        # the operating points differ in the currents only
+        order = ["VLoss"] + [k_ for k_ in order if k_ != "VLoss"]
     for k, kind in enumerate(order):
         n = "T%d" % k
         if kind == "Rectifier":
-            a = {"rs": G.sig(rng.uniform(0.8, 2.0)), "ig": tab("ig", 1e-3, 2e-3, 6e-4), "iq": 1e-5}
+            a = {"rs": G.sig(rng.uniform(0.8, 2.0) * kr), "ig": tab("ig", 1e-3 * (0.01 if standby else 1), 2e-3, 6e-4 * (0.01 if standby else 1)), "iq": 1e-5}
         elif kind == "PSwitch":
-            a = {"rs": G.sig(rng.uniform(1.0, 3.0)), "ig": tab("ig", 2e-3, 1e-3, 5e-4)}
+            a = {"rs": G.sig(rng.uniform(1.0, 3.0) * kr), "ig": tab("ig", 2e-3 * (0.01 if standby else 1), 1e-3, 5e-4 * (0.01 if standby else 1))}
         elif kind == "VLoss":
-            a = {"vdrop": tab("vdrop", 0.3, 0.4, 0.04)}
+            a = {"vdrop": tab("vdrop", 0.05 if standby else 0.3, 0.4, 0.04)}
         else:
-            a = {"vo": sgn * 3.3, "vdrop": 0.3, "ig": tab("ig", 1e-3, 3e-3, 7e-4)}
+            a = {"vo": sgn * (1.2 if standby else 3.3), "vdrop": 0.1 if standby else 0.3,
+                 "ig": tab("ig", 1e-3 * (0.01 if standby else 1), 3e-3, 7e-4 * (0.01 if standby else 1))}
         comps.append(c(n, kind, a, [par]))
         par = n
         if kind == "LinReg":
             break
     comps.append(c("L", "ILoad", {"ii": I}, [par]))
-    return {"name": "strong-tables", "comps": comps, "phases": {}, "_meta": {"polarity": "neg" if sgn < 0 else "pos"}}
+    phases = {}
+    if standby:
+        d1, d2 = rng.choice([2e-7, 3e-7, 4e-7]), rng.choice([2e-7, 3e-7])
+        phases = {"run": 5.0, "run+": 5.0, "doze": 20.0, "doze+": 20.0}
+        comps[-1]["phase"] = {"run": I, "run+": I + d1, "doze": G.sig(I * 0.3), "doze+": G.sig(I * 0.3) + d2}
+    elif rng.random() < 0.6:
+        # several load phases: the same tabulated objects are looked up at several operating points in ONE solve()
+        phases = {"run": 5.0, "doze": 20.0, "sleep": 100.0}
+        comps[-1]["phase"] = {"run": I, "doze": G.sig(I * rng.uniform(0.4, 0.7)), "sleep": G.sig(I * rng.uniform(0.05, 0.3))}
+    return {"name": "strong-tables", "comps": comps, "phases": phases, "phases_first": True,
+            "_meta": {"polarity": "neg" if sgn < 0 else "pos"}}
 
 
 def gen(rng, i, tier):
     if i % 10 == 7:
-        case = {"spec": _strong_tables(rng), "tol": 1e-9, "ta": 25.0}
+        spec = _strong_tables(rng, standby=i % 20 == 17)
+        case = {"spec": spec, "tol": 1e-9, "ta": 25.0}
         case.update(_rows.random_call_context(rng))
         return case
     spec = gen_system(rng, tier)
